@@ -69,7 +69,7 @@ func (c regCall) Coq() string {
 		cZ(int64(c.Treat)), cBool(c.Err == 1), cBool(c.Res == "ok"))
 }
 
-var titlePool = []string{"notice", "NOTICE", "Swell", "audit", "info", "INFO", "warning", "Warn", "x", "verylongtitle", "Hint5", "ok", "trace2", "é-accent", "with space", "q\"uote",
+var titlePool = []string{"\u00dcberwachung", "\u00c9TAT", "\u0391\u03bb\u03c6\u03b1", "\u0130stanbul", "Stra\u00dfe", "notice", "NOTICE", "Swell", "audit", "info", "INFO", "warning", "Warn", "x", "verylongtitle", "Hint5", "ok", "trace2", "é-accent", "with space", "q\"uote",
 	// titles with control characters (a styled title, bell, vertical tab, DEL), a backslash, U+2028
 	"\x1b[1mALERT\x1b[0m", "bell\a", "v\vt", "del\x7f", "back\\slash", "sep\u2028", "tab\there", "nl\nhere"}
 
